@@ -71,7 +71,8 @@ const char *OPN[] = {"set_str", "insert_ch", "insert_str_n", "insert_str", "inse
                      "compare_str"};
 const size_t HDR = 4, REC = 6;
 unsigned g_alpha_set;    // header byte 0, bits 4-5
-const size_t MAXLEN = 200;      // reference strings never grow beyond this (counted no-op)
+size_t MAXLEN = 200;            // reference strings never grow beyond this (counted no-op); 6000 in "long" cases (header byte 0, bit 6)
+bool g_long;                    // long case: the random counts reach ~1500 instead of 40
 
 // weight profiles (swarm); profile 0 is uniform, so op byte == Op for o < NOPS
 const uint8_t PROFILES[][NOPS] = {
@@ -120,7 +121,7 @@ size_t sym(uint8_t v, size_t size, size_t pos, size_t cs, bool *boundary)
         case 3: return size;
         case 4: return 1;
         case 5: return size >= pos ? size - pos : 0;
-        default: return ((size_t)(v >> 3) + (size_t)(v & 1) * 26) % 41;   // random <= 40
+        default: { size_t r = ((size_t)(v >> 3) + (size_t)(v & 1) * 26) % 41; return g_long && (v & 0x10) ? r * 37 + (v >> 5) : r; }   // random <= 40 (long cases: <= ~1500)
         }
     }
     *boundary = true;
@@ -765,6 +766,8 @@ void vf_run(const uint8_t *data, size_t len)
     Cursor cur(data, len);
     uint8_t h0 = cur.u8(), h1 = cur.u8(), h2 = cur.u8(), h3 = cur.u8();
     g_alpha_set = (h0 >> 4) & 3;
+    g_long = (h0 & 0x40) != 0;
+    MAXLEN = g_long ? 6000 : 200;
     static_assert(HDR == 4, "header: wide/objects, profile, base of S0, base of S1");
     if (h0 & 1) { Interp<wchar_t> in; in.run(cur, h0, h1, h2, h3); }
     else { Interp<char> in; in.run(cur, h0, h1, h2, h3); }
@@ -780,7 +783,7 @@ void vf_gen(Rng &r, std::vector<uint8_t> &out)
 {
     bool c16 = g_prop == "C16";
     uint8_t prof = c16 ? (uint8_t)PROFILE_ALLOC : (uint8_t)(r.byte() % NPROFILES);
-    out.push_back((uint8_t)((r.byte() & 0x0f) | (r.chance(1, 2) ? 0 : (r.below(4) << 4))));   // wide / objects / alphabet set
+    out.push_back((uint8_t)((r.byte() & 0x0f) | (r.chance(1, 2) ? 0 : (r.below(4) << 4)) | (r.chance(1, 40) ? 0x40 : 0)));   // wide / objects / alphabet set / long strings
     out.push_back(prof);
     out.push_back(r.byte());                         // base of S0
     out.push_back(r.chance(1, 2) ? 0 : r.byte());    // base of S1
